@@ -14,10 +14,11 @@ Reading (DESIGN.md C08): the sum / exactness clauses speak of the complete rule 
 with boundary off the trapezoidal clause "drops exactly the global-boundary points" applies.  Simpson's degree 3 is
 claimed for `n ≥ 3` points (level ≥ 1); at level 0 the class itself falls back to the trapezoid.
 
-Two behaviours of the unchanged code contradict the property as stated; they are mirrored in the model and proved here
-as `…_defect` theorems (general, not only on a witness):
-* `trap_boundary_off_level0_defect`  — level 0, boundary off, sub-interval touching exactly one side of the domain;
-* `simpson_boundary_off_count_defect` — `SimpsonGrid(boundary=False)`, level ≥ 1, sub-interval not touching both sides.
+One behaviour of the code contradicts the property as stated; it is mirrored in the model and proved here as a
+`…_defect` theorem (general, not only on a witness):
+* `trap_boundary_off_level0_defect`  — level 0, boundary off, sub-interval touching exactly one side of the domain.
+(`SimpsonGrid(boundary=False)` used to return fewer weights than points; repaired in /repo by slicing the weights with
+`lowerBorder:upperBorder`, mirrored here — see `simpson_count`.)
 
 Clenshaw–Curtis, Leja, Gauss–Legendre, Lagrange and B-spline have no exact model (cosines, `fmin`, `leggauss`, linear
 solves); they are validated by the oracle of `harness/c08.py` only.
@@ -126,22 +127,21 @@ theorem simpson_level0_is_trapezoid (g : G1) (hl : g.level = 0) (hm : g.modified
     simpsonWeights g = trapWeights g :=
   simpson_level0_eq_trap g hl hm
 
-/-- **genuine defect (mirrored from the code)**: `SimpsonGrid(boundary=False)` at level ≥ 1 on a sub-interval that
-does not touch both sides of the domain returns the announced number of points but strictly fewer weights
-(`weights[1:-1]` ignores `lowerBorder/upperBorder`); it is consistent only on the full interval. -/
-theorem simpson_boundary_off_count_defect (g : G1) (hb : g.boundary = false) (hl : 1 ≤ g.level) :
-    (g.tl + g.th ≠ 2 → (points1d g).length = g.numPoints ∧ (simpsonWeights g).length < (points1d g).length)
-    ∧ (g.tl + g.th = 2 → (simpsonWeights g).length = (points1d g).length) :=
-  ⟨simpson_off_count_defect g hb hl, simpson_off_count_full g hb hl⟩
+/-- **count clause for the Simpson family**: for every level, sub-interval and boundary flag the class returns as many
+points as it announces and as many weights as points (the weights are sliced by `lowerBorder:upperBorder` like the
+points) -/
+theorem simpson_count (g : G1) :
+    (points1d g).length = g.numPoints ∧ (simpsonWeights g).length = g.numPoints :=
+  ⟨points1d_length g, simpsonWeights_length g⟩
 
 /-! ## tensor product (every dimension) -/
 
-/-- **count clause** for the tensor grid, every family / flag combination: `len(getPoints()) = Π levelToNumPoints`;
-the trapezoidal family also returns that many weights -/
+/-- **count clause** for the tensor grid, every family / flag combination: `len(getPoints()) = Π levelToNumPoints`
+and as many weights -/
 theorem tensor_count (f : Family) (gs : List G1) :
     (tensorPoints f gs).length = (levelToNumPoints gs).prod
-    ∧ (tensorWeights .trap gs).length = (levelToNumPoints gs).prod :=
-  ⟨tensorPoints_length f gs, tensorWeights_length_trap gs⟩
+    ∧ (tensorWeights f gs).length = (levelToNumPoints gs).prod :=
+  ⟨tensorPoints_length f gs, by cases f <;> [exact tensorWeights_length_trap gs; exact tensorWeights_length_simpson gs]⟩
 
 /-- **containment clause** for the tensor grid: every coordinate of every point lies in its `[start_d, stop_d]` -/
 theorem tensor_points_inside (f : Family) (gs : List G1) (h : ∀ g ∈ gs, g.start ≤ g.stop) (t : List ℚ)
@@ -240,11 +240,10 @@ example : List.zip (points1d gL0) (trapWeights gL0) = [((7 : ℚ) / 4, (1 : ℚ)
   rw [(trap_boundary_off_level0_defect gL0 rfl rfl (by norm_num [gL0]) (by norm_num [gL0]) (by norm_num [gL0]) rfl
     (by norm_num [G1.tl, G1.th, G1.touchLo, G1.touchHi, gL0])).1]
   norm_num [gL0]
-/-- the Simpson defect on the anticipated witness: 8 points, 7 weights -/
-example : (points1d gOff).length = 8 ∧ (simpsonWeights gOff).length = 7 := by
-  constructor
-  · rw [points1d_length]; norm_num [G1.numPoints, G1.touchLo, G1.touchHi, gOff, gOn]
-  · rw [simpsonWeights_length_off gOff rfl (by decide)]; rfl
+/-- Simpson, boundary off, on the former witness of the repaired defect: 8 points and 8 weights -/
+example : (points1d gOff).length = 8 ∧ (simpsonWeights gOff).length = 8 := by
+  rw [(simpson_count gOff).1, (simpson_count gOff).2]
+  norm_num [G1.numPoints, G1.touchLo, G1.touchHi, gOff, gOn]
 /-- modified basis: `gMod` has 8 ≥ 3 points -/
 example : gMod.boundary = false ∧ gMod.modified = true ∧ 3 ≤ gMod.numPoints := by
   norm_num [G1.numPoints, G1.touchLo, G1.touchHi, gMod, gOn]
